@@ -35,6 +35,18 @@ Definition bind {A B} (m : M A) (f : A -> M B) : M B :=
 Notation "x <- m ;; k" := (bind m (fun x => k)) (at level 61, m at next level, right associativity).
 Notation "m ;;; k" := (bind m (fun _ => k)) (at level 61, right associativity).
 
+Fixpoint mapM {A B} (f : A -> M B) (l : list A) : M (list B) :=
+  match l with
+  | [] => ret []
+  | x :: r => y <- f x ;; ys <- mapM f r ;; ret (y :: ys)
+  end.
+
+Fixpoint foldM {A B} (f : B -> A -> M B) (l : list A) (b : B) : M B :=
+  match l with
+  | [] => ret b
+  | x :: r => b' <- f b x ;; foldM f r b'
+  end.
+
 Definition mem_tax (p : taxon) (l : list taxon) : bool := existsb (taxon_eqb p) l.
 
 (* Ham._get_ancestral_genome_by_taxon / _get_extant_genome_by_name: create on demand *)
@@ -176,8 +188,14 @@ Fixpoint lift_level (ks : list kid) (lvl : taxon) : M taxon :=
   | (None, _) :: r => lift_level r lvl
   end.
 
+(* one copy of a duplication, lifted to just below `target` (Ham._add_missing_taxon) *)
+Definition lift_member (hid : option string) (target : taxon) (k : nat) (c : hog) : M kid :=
+  cid <- chain_id c hid ;;
+  top <- chain cid (path_up (htax c) target) None c ;;
+  ret (Some k, top).
+
 (* re-homing of one duplication's copies (parsers.py, "For each duplication") *)
-Definition rehome (hid : option string) (hoid : nat) (lvl : taxon) (k : nat) (ks : list kid) : M (list kid) :=
+Definition rehome (hid : option string) (hoid : nat) (lvl : taxon) (ks : list kid) (k : nat) : M (list kid) :=
   m <- dup_mrca k ;;
   let members := members_of k ks in
   let rest := filter (not_member k) ks in
@@ -189,45 +207,28 @@ Definition rehome (hid : option string) (hoid : nat) (lvl : taxon) (k : nat) (ks
         ensure_genome a ;;;
         mo <- fresh_oid ;;
         register a (RHog mo) ;;;
-        lifted <- (fix go (l : list hog) : M (list kid) :=
-                     match l with
-                     | [] => ret []
-                     | c :: r =>
-                         cid <- chain_id c hid ;;
-                         top <- chain cid (path_up (htax c) a) None c ;;
-                         rs <- go r ;;
-                         ret ((Some k, top) :: rs)
-                     end) members ;;
+        lifted <- mapM (lift_member hid a k) members ;;
         dup_update k (fun d => {| di_og := di_og d; di_mrca := di_mrca d; di_parent := Some mo |}) ;;;
         ret (rest ++ [(None, HHog mo a (synth_meta hid) lifted)])
       else
         dup_update k (fun d => {| di_og := di_og d; di_mrca := di_mrca d; di_parent := Some hoid |}) ;;;
-        lifted <- (fix go (l : list hog) : M (list kid) :=
-                     match l with
-                     | [] => ret []
-                     | c :: r =>
-                         cid <- chain_id c hid ;;
-                         top <- chain cid (path_up (htax c) lvl) None c ;;
-                         rs <- go r ;;
-                         ret ((Some k, top) :: rs)
-                     end) members ;;
+        lifted <- mapM (lift_member hid lvl k) members ;;
         ret (rest ++ lifted)
   end.
 
-(* generic missing-level pass *)
+(* generic missing-level pass, one child *)
+Definition lift_generic (hid : option string) (lvl : taxon) (kd : kid) : M kid :=
+  cid <- chain_id (snd kd) hid ;;
+  match path_up (htax (snd kd)) lvl with
+  | [] => ret kd
+  | path => top <- chain cid path (fst kd) (snd kd) ;; ret (None, top)
+  end.
+
+Definition adjacent (lvl : taxon) (kd : kid) : bool := Nat.eqb (S (depth lvl)) (depth (htax (snd kd))).
+
 Definition generic_pass (hid : option string) (lvl : taxon) (ks : list kid) : M (list kid) :=
-  let adjacent (kd : kid) := Nat.eqb (S (depth lvl)) (depth (htax (snd kd))) in
-  lifted <- (fix go (l : list kid) : M (list kid) :=
-               match l with
-               | [] => ret []
-               | (f, c) :: r =>
-                   cid <- chain_id c hid ;;
-                   match path_up (htax c) lvl with
-                   | [] => rs <- go r ;; ret ((f, c) :: rs)
-                   | path => top <- chain cid path f c ;; rs <- go r ;; ret ((None, top) :: rs)
-                   end
-               end) (filter (fun kd => negb (adjacent kd)) ks) ;;
-  ret (filter adjacent ks ++ lifted).
+  lifted <- mapM (lift_generic hid lvl) (filter (fun kd => negb (adjacent lvl kd)) ks) ;;
+  ret (filter (adjacent lvl) ks ++ lifted).
 
 (* OrthoXMLParser.end for orthologGroup (not in skip mode) *)
 Definition close_og (t : stree) (top : bool) (id og : option string) (fr : frame) : M closed :=
@@ -253,11 +254,7 @@ Definition close_og (t : stree) (top : bool) (id og : option string) (fr : frame
         let meta := {| m_id := match id with Some i => Some i | None => og end; m_og := og;
                        m_props := f_props fr; m_scores := f_scores fr; m_synth := false |} in
         let hid := hog_id_of meta in
-        ks1 <- (fix go (keys : list nat) (cur : list kid) : M (list kid) :=
-                  match keys with
-                  | [] => ret cur
-                  | k :: r => cur' <- rehome hid o lvl k cur ;; go r cur'
-                  end) (dup_keys ks []) ks ;;
+        ks1 <- foldM (rehome hid o lvl) (dup_keys ks []) ks ;;
         ks2 <- generic_pass hid lvl ks1 ;;
         ret (Node (HHog o lvl meta ks2))
   end.
@@ -336,13 +333,10 @@ Definition load_species (t : stree) (sp : species) (genes : list (string * taxon
       if negb (is_leaf t p) then fail TypeError
       else
         ensure_genome p ;;;
-        (fix go (l : list gene_decl) (acc : list (string * taxon)) : M (list (string * taxon)) :=
-           match l with
-           | [] => ret acc
-           | g :: r =>
-               if existsb (fun x => String.eqb (gd_id g) (fst x)) acc then fail Unmodelled
-               else register p (RGene (gd_id g)) ;;; go r (acc ++ [(gd_id g, p)])
-           end) (sp_genes sp) genes
+        foldM (fun acc g =>
+                 if existsb (fun x => String.eqb (gd_id g) (fst x)) acc then fail Unmodelled
+                 else register p (RGene (gd_id g)) ;;; ret (acc ++ [(gd_id g, p)]))
+              (sp_genes sp) genes
   | _ => fail KeyError
   end.
 
@@ -357,16 +351,8 @@ Definition init_state : lstate :=
 
 Definition load (t : stree) (d : doc) : result loaded :=
   let m :=
-    genes <- (fix go (l : list species) (acc : list (string * taxon)) : M (list (string * taxon)) :=
-                match l with
-                | [] => ret acc
-                | sp :: r => acc' <- load_species t sp acc ;; go r acc'
-                end) (d_species d) [] ;;
-    tops <- (fix go (l : list item) : M (list (option string * hog)) :=
-               match l with
-               | [] => ret []
-               | x :: r => h <- eval_top t genes x ;; hs <- go r ;; ret (h :: hs)
-               end) (d_groups d) ;;
+    genes <- foldM (fun acc sp => load_species t sp acc) (d_species d) [] ;;
+    tops <- mapM (eval_top t genes) (d_groups d) ;;
     ret (genes, tops) in
   match m init_state with
   | Ok ((genes, tops), s) => Ok {| l_genes := genes; l_tops := tops; l_state := s |}
